@@ -440,7 +440,11 @@ bufferevent_socket_connect(struct bufferevent *bev,
 		/* The connect succeeded already. How very BSD of it. */
 		result = 0;
 		bufev_p->connecting = 1;
-		bufferevent_trigger_nolock_(bev, EV_WRITE, BEV_OPT_DEFER_CALLBACKS);
+		/* Run bufferevent_writecb() from the loop: it reports
+		 * BEV_EVENT_CONNECTED.  (Triggering the user's write callback
+		 * here would deliver it before the CONNECTED event, and never
+		 * deliver CONNECTED at all if writing is disabled.) */
+		event_active(&bev->ev_write, EV_WRITE, 1);
 	} else {
 		/* The connect failed already (only ECONNREFUSED case). How very BSD of it. */
 		result = 0;
